@@ -23,6 +23,9 @@ def declare(c):
                      'position ((current-offset-homeOffset)/unitMultiplier), feed rate in file units', floor=6)
     c.rule('C03.R7', 'inside an episode every move with an X/Y/Z word is tested against the regions and, when it tests outside, '
                      'closes the episode with the exit sequence', floor=100)
+    c.rule('C03.R8', 'on every move path that closes an episode the X/Y/Z words of the generated travel are the logical values of '
+                     'the position tracked at the END of the command (the file\'s position after it); without a generated Z move '
+                     'the final Z equals the Z remembered at entry', floor=50)
     c.rule('C03.R6', 'excluding is cleared only by exitExcludedRegion / resetState and set only by enterExcludedRegion',
            floor=3)
 
@@ -199,6 +202,9 @@ def path_rules(col, gcode, paths, I):
                     col.report('C03.R7', 'ExcludeRegionState.processLinearMoves', '%s leaves the region but the episode stays open' % gcode,
                                'the destination tested outside every region, yet the exit sequence is not produced',
                                detail={'entry': p.entry, 'decisions': f.decisions()})
+        if not f.raised and f.pre_excluding is True and f.post_excluding() is False and gcode in ('G0', 'G1', 'G2', 'G3') \
+                and f.kind == 'list' and ('ExcludeRegionState', 'exitExcludedRegion') in f.calls:
+            leaving_rule(col, gcode, p, f, I)
         if not f.raised and f.pre_excluding is True and f.post_excluding() is True:
             col.instance('C03.R2', (gcode, 'inside', f.describe()))
             for e in p.st.trace:
@@ -234,6 +240,72 @@ def path_rules(col, gcode, paths, I):
                                    'the Z height compared at exit is the target of the entering move, which is never '
                                    'executed: a Z change on the entering move is lost',
                                    detail={'entry': p.entry, 'decisions': f.decisions()})
+
+
+def leaving_rule(col, gcode, p, f, I):
+    """the travel generated when a move leaves the region must go where the file is after that move"""
+    from .pathfacts import CMDKEY, exact_tracking
+    col.instance('C03.R8', (gcode, f.describe(), tuple(f.decisions()[-5:])))
+    detail = {'entry': p.entry, 'result': f.describe(), 'decisions': f.decisions()[-10:]}
+    for (fn, construct, msg) in exact_tracking(f, gcode):
+        col.report('C03.R8', fn, construct + ' on the leaving move', msg, detail=detail)
+    words = {}
+    for e in f.elems:
+        for cat in live_alts(p.st, e):
+            if not isinstance(cat, Cat):
+                continue
+            sk = cat.skeleton()
+            if not sk.startswith('G0 '):
+                continue
+            for letter in template_letters(sk):
+                if letter in 'XYZ':
+                    words.setdefault(letter, []).append(_arg(cat, letter))
+    for axis, letter in (('X_AXIS', 'X'), ('Y_AXIS', 'Y'), ('Z_AXIS', 'Z')):
+        aoid = '%s.%s' % (POS, axis)
+        off = Poly.sym(aoid + '.offset') + Poly.sym(aoid + '.homeOffset')
+        u = Poly.sym(aoid + '.unitMultiplier')
+        statuses = [frozenset(['V']), frozenset(['A', 'F'])] if gcode in ('G0', 'G1') else [None]
+        for status in statuses:
+            if status is not None and not (f.pstatus(letter) & status):
+                continue
+            for mode in ((True, False) if gcode in ('G0', 'G1') else (True,)):
+                assume = {('fld', aoid, 'absoluteMode'): frozenset([mode])}
+                if status is not None:
+                    assume[('param', CMDKEY, letter)] = status
+                from .pathfacts import consistent
+                if not consistent(p.st, assume):
+                    continue
+                finals = [v for v in f.final(aoid, 'current', assume)]
+                if len(finals) != 1 or not isinstance(finals[0], Num):
+                    continue
+                want = (finals[0].p - off).div(u)
+                if want is None:
+                    continue
+                got = words.get(letter, [])
+                if not got:
+                    if letter != 'Z':
+                        col.report('C03.R8', 'ExcludeRegionState.exitExcludedRegion', '%s: no %s word in the exit travel' % (gcode, letter),
+                                   'the printer is not re-positioned in %s' % letter, detail=detail)
+                        continue
+                    # no Z move: the printer stays at the height remembered at entry, which must be the file's height now
+                    oldz = axis_logical(I, LAST + '.Z_AXIS')
+                    st2 = p.st
+                    signs = I.infer_signs(st2, want - oldz)
+                    if set(signs) != {0}:
+                        col.report('C03.R8', 'ExcludeRegionState.exitExcludedRegion',
+                                   '%s leaves the region without a Z move although the final Z may differ from the remembered Z' % gcode,
+                                   'the printer stays at the height it had when the episode began (%r) but the file is at %r '
+                                   'after this command; sign of the difference on this path: %s' % (oldz, want, sorted(signs)),
+                                   detail=detail)
+                    continue
+                for g in got:
+                    for a in live_alts(p.st, g, assume):
+                        if not (isinstance(a, Num) and a.p == want):
+                            col.report('C03.R8', 'ExcludeRegionState.exitExcludedRegion',
+                                       '%s: %s word of the exit travel is not the final tracked %s' % (gcode, letter, letter),
+                                       'the generated travel goes to %s=%r but after this command the file is at %r (a word taken '
+                                       'from the position before the command was applied?)' % (letter, getattr(a, 'p', a), want),
+                                       detail=detail)
 
 
 def writers_rule(ctx):
